@@ -45,6 +45,8 @@ func C01(e *Env) {
 	c14Sanitise(e, "R14.3")
 	c03Shapes(e, "R03.7")
 	r.Rule("R03.7", "engine F: every token factory emits, on every path, text that parses as a Go function literal with the call shape callProvider(<fn>[, <arguments>]) (shared with C03): a dropped comma or parenthesis in a code template would make every configuration using that token kind uncompilable", 5)
+	c15Todo(e)
+	r.Rule("R15.1", "a todo service is compiled to name+flag only (shared with C15): the validators skip todo services, so a getter or type copied from one reaches the templates unvalidated (a getter equal to another service's declares a method twice)", 1)
 	c13Families(e, "R13.6")
 	r.Rule("R13.6", "name-family separation: ValidateServiceGetter rejects every getter with the Must prefix and every getter with the InContext suffix (shared with C13): a getter MustX next to a getter X declares the method MustX twice and the file does not compile", 2)
 	sharedWriteRules(e)
